@@ -524,6 +524,9 @@ pub fn run_scenario_family(sc: &Scenario, panic_at: u32, family: u8) -> RunOut {
         let _g = enter_arena(1);
         drop(bump);
     }
+    if family == 0 && matches!(sc.scen, 0 | 1 | 27 | 2 | 3 | 4 | 6 | 9 | 10) {
+        tok_twin(sc, panic_at, &mut out.viol);
+    }
     ledger::end_case();
     // known-finding signatures (DESIGN §2.6): matched on the scenario shape AND the observed failure
     if !out.viol.is_empty() && out.panicked {
@@ -535,6 +538,140 @@ pub fn run_scenario_family(sc: &Scenario, panic_at: u32, family: u8) -> RunOut {
         }
     }
     out
+}
+
+/// A value without a destructor that is nevertheless unique (think `&mut T` or a `ManuallyDrop<Box<T>>`): it may be
+/// moved or leaked but never duplicated, so after a panic no id may be reachable twice.
+pub struct Tok {
+    pub id: u32,
+    pub val: u32,
+}
+impl PartialEq for Tok {
+    fn eq(&self, o: &Tok) -> bool {
+        let _u = ledger::enter_user();
+        cb_tick(0);
+        self.val == o.val
+    }
+}
+struct TokIter {
+    vals: std::vec::IntoIter<u32>,
+    next_id: u32,
+    exact: bool,
+}
+impl Iterator for TokIter {
+    type Item = Tok;
+    fn next(&mut self) -> Option<Tok> {
+        let _u = ledger::enter_user();
+        cb_tick(0);
+        let v = self.vals.next()?;
+        self.next_id += 1;
+        Some(Tok { id: self.next_id, val: v })
+    }
+    fn size_hint(&self) -> (usize, Option<usize>) {
+        if self.exact {
+            self.vals.size_hint()
+        } else {
+            (0, None)
+        }
+    }
+}
+
+/// the same scenario and panic point on a vector of `Tok`s (callback-carrying operations only)
+fn tok_twin(sc: &Scenario, panic_at: u32, viol: &mut Vec<String>) {
+    let bump = {
+        let _g = enter_arena(1);
+        Bump::new()
+    };
+    {
+        let b = &bump;
+        let m = 2 + (sc.a % 3) as u32;
+        let r = (sc.b as u32) % m;
+        let extra: Vec<u32> = (0..(sc.c % 6) as usize).map(|j| (sc.a as u32 + j as u32) % 6).collect();
+        let mut held: Vec<Tok> = Vec::with_capacity(32);
+        cb_reset(u32::MAX, 0);
+        let mut v: BVec<Tok> = {
+            let _g = enter_arena(1);
+            BVec::from_iter_in(sc.pre.iter().enumerate().map(|(i, &x)| Tok { id: i as u32, val: x }), b)
+        };
+        let mut made: Option<BVec<Tok>> = None;
+        cb_reset(panic_at, 0);
+        let res = {
+            let _g = enter_arena(1);
+            catch_unwind(AssertUnwindSafe(|| match sc.scen {
+                0 => v.retain(|x| {
+                    let _u = ledger::enter_user();
+                    cb_tick(0);
+                    x.val % m != r
+                }),
+                1 => {
+                    let take = (sc.c % 5) as usize;
+                    let mut d = v.drain_filter(|x| {
+                        let _u = ledger::enter_user();
+                        cb_tick(0);
+                        x.val % m == r
+                    });
+                    for _ in 0..take {
+                        match d.next() {
+                            Some(x) => {
+                                let _u = ledger::enter_user();
+                                held.push(x);
+                            }
+                            None => break,
+                        }
+                    }
+                }
+                27 => {
+                    let d = v.drain_filter(|x| {
+                        let _u = ledger::enter_user();
+                        cb_tick(0);
+                        x.val % m == r
+                    });
+                    drop(d);
+                }
+                2 => v.dedup_by_key(|x| {
+                    let _u = ledger::enter_user();
+                    cb_tick(0);
+                    x.val / m
+                }),
+                3 => v.dedup_by(|x, y| {
+                    let _u = ledger::enter_user();
+                    cb_tick(0);
+                    x.val % m == y.val % m
+                }),
+                4 => v.dedup(),
+                6 => v.extend(TokIter { vals: extra.clone().into_iter(), next_id: 1000, exact: sc.b & 1 == 0 }),
+                9 => {
+                    let len = v.len();
+                    let lo = (sc.a as usize * (len + 1)) >> 8;
+                    let hi = lo + (((sc.b as usize) * (len - lo + 1)) >> 8);
+                    let mut sp = v.splice(lo..hi, TokIter { vals: extra.clone().into_iter(), next_id: 1000, exact: sc.c & 0x80 == 0 });
+                    if sc.c & 1 == 1 {
+                        if let Some(x) = sp.next() {
+                            let _u = ledger::enter_user();
+                            held.push(x);
+                        }
+                    }
+                    drop(sp);
+                }
+                _ => {
+                    made = Some(BVec::from_iter_in(TokIter { vals: extra.clone().into_iter(), next_id: 1000, exact: sc.b & 1 == 0 }, b));
+                }
+            }))
+        };
+        cb_reset(u32::MAX, 0);
+        let what = format!("{} on values without a destructor ({})", SCEN_NAMES.get(sc.scen as usize).copied().unwrap_or("operation"), if res.is_err() { "callback panicked" } else { "no panic" });
+        let mut seen = std::collections::HashSet::new();
+        for x in v.iter().chain(held.iter()).chain(made.iter().flat_map(|w| w.iter())) {
+            if !seen.insert(x.id) {
+                viol.push(format!("{what}: value #{} (payload {}) is reachable twice: a value that was moved is still reachable through the container", x.id, x.val));
+            }
+        }
+        let _g = enter_arena(1);
+        drop(v);
+        drop(made);
+    }
+    let _g = enter_arena(1);
+    drop(bump);
 }
 
 /// keep the current panic point but do nothing else (used where a value is built inside the closure)
